@@ -247,8 +247,9 @@ Proof.
         exists esc'. rewrite E1. rewrite <- app_assoc. split; [reflexivity|].
         left. destruct E2 as [E2|[E2 _]]; exact E2.
     + apply andb_true_iff in Hb. destruct Hb as [Hraw Hb].
-      assert (c <> 34 /\ c <> 0) as [E34 E0] by (unfold raw_ok in Hraw; destruct html; lia).
+      assert (c <> 34 /\ c <> 0 /\ 32 <= c) as (E34 & E0 & E32) by (unfold raw_ok in Hraw; destruct html; lia).
       destruct (N.eqb_spec c 34); [congruence|]. destruct (N.eqb_spec c 0); [congruence|].
+      destruct (N.ltb_spec c 32); [lia|].
       destruct (IH r (acc ++ [c]) esc rest Hb ltac:(lia)) as (esc' & E1 & E2).
       exists esc'. rewrite E1. rewrite <- app_assoc. split; [reflexivity|].
       destruct E2 as [E2|[E2 E3]]; [left; exact E2|right]. split; [exact E2|constructor; assumption].
